@@ -102,7 +102,14 @@ def _shard_main(args):
     try:
         mod = _load_module(prop)
         subs = mod.subs(tier)
+        # overall wall budget of one check (all sub-checks together): each sub gets at most an equal share of it
+        total_budget = float(os.environ.get("VERIF_BUDGET_S", "150" if tier == "quick" else "720"))
+        nsel = max(1, len([s_ for s_ in subs if not only_sub or s_.name == only_sub]))
         for sub in subs:
+            share = total_budget / nsel
+            if hasattr(sub, "budget_s_quick"):
+                sub.budget_s_quick = min(sub.budget_s_quick, share)
+                sub.budget_s_thorough = min(sub.budget_s_thorough, share)
             if only_sub and sub.name != only_sub:
                 continue
             ctx._cur_sub = sub.name
